@@ -31,7 +31,7 @@ from adaptix._internal.type_tools import normalize_type  # noqa: E402
 from vkit import codec, soup, tspec  # noqa: E402
 
 PROP = "C15"
-GEN = tspec.TypeGen(max_depth=3, models=False, wrappers=False, enums=True)
+GEN = tspec.TypeGen(max_depth=3, models=False, wrappers=False, enums=True, disjoint_unions=False, dumpable_unions=False)
 
 
 # ------------------------------------------------------------------------------------ rewrites on specs
@@ -184,10 +184,76 @@ def st_case(draw):
         p, name, new = draw(st.sampled_from(opts))
         cur = set_node(cur, p, new)
         steps.append([name, len(p)])
-    probes = [draw(soup.st_near_valid(t, max_mut=1))[0] for _ in range(2)] + [draw(soup.st_soup(4))]
+    if unions_reference_dumpable(t):
+        probes = [draw(soup.st_near_valid(t, max_mut=1))[0] for _ in range(2)] + [draw(soup.st_soup(4))]
+    else:
+        # overlapping / non-class union cases: the reference dump cannot pick a case; such types still matter here because
+        # the union loader tries the cases in NORMAL-FORM order, so equivalent spellings must agree on arbitrary data too
+        probes = [draw(soup.st_soup(6)) for _ in range(3)] + [[], [[]], [["2020-01-02"]], [[1]], {"$": "d", "v": [["a", [1]]]}]
     values = [draw(tspec.st_value(t)) for _ in range(2)]
     return {"mode": mode, "a": t, "b": cur, "steps": steps, "probes": probes, "values": values,
             "order": draw(st.booleans())}
+
+
+def denote(spec):  # noqa: C901, PLR0911, PLR0912
+    """The harness's own notion of "denotes the same type": spellings ignored, unions flattened into sets, literal members
+    merged type-aware, Optional / Literal[None] folded.  Independent of adaptix; used to decide whether an edit really
+    changed the meaning (the generator may produce duplicate union members) and to self-check the rewrite catalogue."""
+    tag = spec[0]
+    if tag in ("list", "set", "frozenset", "vtuple", "deque"):
+        return (tag, denote(spec[1]))
+    if tag == "abc":
+        return ("abc", spec[1], denote(spec[2]))
+    if tag == "tuple":
+        return ("tuple", tuple(denote(x) for x in spec[1]))
+    if tag in ("dict", "defaultdict", "mapping", "mutablemapping"):
+        return (tag, denote(spec[1]), denote(spec[2]))
+    if tag == "enum":
+        return ("enum", spec[1]["name"])
+    if tag in ("optional", "union", "literal", "none"):
+        members, lits = set(), set()
+
+        def add(s2):
+            t2 = s2[0]
+            if t2 == "optional":
+                add(s2[1])
+                members.add(("none",))
+            elif t2 == "union":
+                for c in s2[1]:
+                    add(c)
+            elif t2 == "literal":
+                for v in s2[1]:
+                    if v is None:
+                        members.add(("none",))
+                    elif isinstance(v, dict):
+                        lits.add(("$", repr(sorted((k, repr(x)) for k, x in v.items() if k != "spec"))))
+                    else:
+                        lits.add((type(v).__name__, repr(v)))
+            elif t2 == "none":
+                members.add(("none",))
+            else:
+                members.add(denote(s2))
+        add(spec)
+        if lits:
+            members.add(("literal", frozenset(lits)))
+        if len(members) == 1:
+            return next(iter(members))
+        return ("union", frozenset(members))
+    return (tag, *[x for x in spec[1:] if isinstance(x, str) and tag in ("ip", "path")])
+
+
+def unions_reference_dumpable(t) -> bool:
+    for s in tspec.walk(t):
+        if s[0] == "union":
+            seen = set()
+            for c in s[1]:
+                if not tspec.union_case_dumpable(c):
+                    return False
+                sh = tspec.shapes(c, True)
+                if seen & sh:
+                    return False
+                seen |= sh
+    return True
 
 
 def build_hint(spec, shared_env):
@@ -251,6 +317,12 @@ def check_case(ctx: runner.Ctx, case):  # noqa: C901, PLR0912, PLR0915
         if again != n or hash(again) != hash(n):
             ctx.violation("not_idempotent", (steps[0][0] if steps else "none",), case, f"{head}: {n!r} -> {again!r}")
     if case["mode"] == "none":
+        return None
+    same_meaning = denote(a_spec) == denote(b_spec)
+    if case["mode"] == "preserve" and not same_meaning:
+        raise env.HarnessError(f"rewrite catalogue bug: {steps} changed the meaning of {a_spec} -> {b_spec}")
+    if case["mode"] == "change" and same_meaning:
+        ctx.count("edit_did_not_change_the_meaning")   # e.g. a duplicate union member was dropped
         return None
     if case["mode"] == "change":
         if na == nb:
